@@ -8,7 +8,7 @@ for id in "${ids[@]}"; do
   p="seeded/$id/patch.diff"
   pid=$(python3 -c "import json;print(json.load(open('seeded/$id/meta.json'))['breaks_property'])")
   if ! git -C /repo apply --check "$PWD/$p" 2>/dev/null; then
-    (cd /repo && patch -s -p1 --fuzz=3 < "/verif/$p") || { echo "$id: patch does not apply"; git -C /repo checkout -- .; continue; }
+    (cd /repo && patch -s -p1 --no-backup-if-mismatch --fuzz=3 < "/verif/$p") || { echo "$id: patch does not apply"; git -C /repo checkout -- .; continue; }
     git -C /repo diff -- src > "$p"; git -C /repo checkout -- .
     echo "$id: patch refreshed against current HEAD"
   fi
